@@ -253,8 +253,12 @@ func runVecHistory(r *rand.Rand, p vecParams, o vecHistOpts, t *Trace) *Case {
 				t.Stat("vec.add_zero_vector")
 			}
 			raw := cloneVec(v)
-			e := idx.Add(*comet.NewVectorNodeWithID(id, v))
+			var e error
+			apan := catchPanic(func() { e = idx.Add(*comet.NewVectorNodeWithID(id, v)) })
 			code := errCode(e)
+			if apan {
+				code = 12
+			}
 			ops = append(ops, func(c *Case) { c.N(1).U(uint64(id)).Vec(raw).N(code) })
 			if code == 0 {
 				resident = append(resident, liveVec{id, raw})
@@ -271,8 +275,12 @@ func runVecHistory(r *rand.Rand, p vecParams, o vecHistOpts, t *Trace) *Case {
 			default:
 				id = uint32(500 + r.Intn(5))
 			}
-			e := idx.Remove(*comet.NewVectorNodeWithID(id, nil))
+			var e error
+			rpan := catchPanic(func() { e = idx.Remove(*comet.NewVectorNodeWithID(id, nil)) })
 			code := errCode(e)
+			if rpan {
+				code = 12
+			}
 			ops = append(ops, func(c *Case) { c.N(2).U(uint64(id)).N(code) })
 			if code == 0 {
 				removed[id] = true
@@ -315,6 +323,20 @@ func runVecHistory(r *rand.Rand, p vecParams, o vecHistOpts, t *Trace) *Case {
 						qs[i][j] *= sc
 					}
 					t.Stat("vec.query_cosine_far_from_unit")
+				} else if p.metric == 2 && r.Intn(4) == 0 {
+					// cosine: a query whose length is close to, but not, one (a length "near enough" to one is
+					// still normalised: the reported score is the distance of the directions)
+					var n2 float64
+					for _, x := range qs[i] {
+						n2 += float64(x) * float64(x)
+					}
+					if n2 > 0 {
+						sc := (1 + []float64{3e-4, -3e-4, 4.5e-4, -2e-5, 1e-4}[r.Intn(5)]) / math.Sqrt(n2)
+						for j := range qs[i] {
+							qs[i][j] = float32(float64(qs[i][j]) * sc)
+						}
+						t.Stat("vec.query_cosine_near_unit")
+					}
 				}
 				if r.Intn(30) == 0 {
 					for j := range qs[i] {
@@ -437,15 +459,34 @@ func runVecHistory(r *rand.Rand, p vecParams, o vecHistOpts, t *Trace) *Case {
 			} else {
 				s = s.WithNProbes(np)
 			}
+			// every option SETS its value: a decoy given first must leave no trace
 			if nq > 0 {
 				qc := make([][]float32, nq)
 				for i := range qs {
 					qc[i] = cloneVec(qs[i])
 				}
+				if r.Intn(10) == 0 {
+					s = s.WithQuery(histVec(r, p.dim, style))
+					t.Stat("vec.option_set_twice")
+				}
 				s = s.WithQuery(qc...)
+			}
+			if r.Intn(12) == 0 && len(resident) > 0 {
+				s = s.WithNode(resident[0].id)
+				if len(nodes) == 0 {
+					s = s.WithNode()
+				}
+				t.Stat("vec.option_set_twice")
 			}
 			if len(nodes) > 0 {
 				s = s.WithNode(nodes...)
+			}
+			if r.Intn(12) == 0 {
+				s = s.WithDocumentIDs(1, 2, 3)
+				if len(docids) == 0 {
+					s = s.WithDocumentIDs()
+				}
+				t.Stat("vec.option_set_twice")
 			}
 			if len(docids) > 0 {
 				s = s.WithDocumentIDs(docids...)
